@@ -9,7 +9,7 @@ PROPS = ["Props/C16.v", "Props/C16src.v"]
 THEOREMS = ["C16_lengths_aligned", "C16_lengths_refuted_without_repair", "C16_robust_fit_total", "C16_ten_faults_refuted",
             "C16_rows_exhausted_refuted", "C16_init_training_terminates", "C16_init_training_unbounded", "C16_update_fallback",
             "C16_retry_loop_is_source", "C16_drop_is_applied_to_all_three_is_source", "C16_init_retry_is_source", "C16_restart_is_source",
-            "C16_slice_sampler_after_drop_refuted"]
+            "C16_slice_sampler_sees_aligned_set"]
 TRANSLATORS = ["fitretry"]
 LEVEL = "proof"
 ALLOWED_AXIOMS = []
@@ -82,7 +82,8 @@ def c_attempt(a):
 
 KNOWN_SLICE = "slice-sampler-after-drop"
 KNOWN_NAN = "slice-sampler-nan-start"      # no Coq counterpart: it is about hyper-parameter VALUES, outside the lengths model
-KNOWN_KEYS = (KNOWN_SLICE, KNOWN_NAN)
+KNOWN_KEYS = (KNOWN_NAN,)      # open findings of the unchanged code the searches must not attribute to a change under test
+# KNOWN_SLICE was repaired (known_findings.d/C16.json: fixed): its reappearance is an ordinary concrete violation
 
 
 def violation_key(o, key, msg):
@@ -314,22 +315,20 @@ def tie(ctx, broken):
             ctx.oblige("refutation-replay:" + tag, "correspondence", ok, obs.get(tag, "")[:200])
             if not ok:
                 broken.append(("refutation-replay:" + tag, f"the model's stuck state '{e}' no longer reproduces on the code: {obs.get(tag)}"))
-    # ---- the known finding, replayed on the real code on every run (backs C16_slice_sampler_after_drop_refuted)
+    # ---- REPAIRED finding slice-sampler-after-drop: its former witness is a regression run that must COMPLETE (C16_slice_sampler_sees_aligned_set)
     bs = next((b for b in bases if b["cfg"]["mode"] == "spec"), None)
     if bs is not None:
         c = copy.deepcopy(bs["cfg"])
         c.setdefault("opts", {})["use_slice_sampler"] = True
-        c.update(faults=[1, 2], upd_faults=[], upd_double=False, tag="witness:slice-sampler-after-drop")
+        c.update(faults=[1, 2], upd_faults=[], upd_double=False, tag="regression:slice-sampler-after-drop")
         o = F.run_faulted(c)
-        keys = [violation_key(o, k_, m_) for k_, m_ in o["violations"]]
-        okw = KNOWN_SLICE in keys
-        ctx.oblige("refutation-replay:" + KNOWN_SLICE, "correspondence", okw, str(o["exc"])[:200])
-        if okw:
-            ctx.violate(KNOWN_SLICE, f"specified-noise run (seed {c['seed']}, max_fun_evals {c['budget']}) with use_slice_sampler=True and LinAlgError injected "
-                        f"at fit invocations [1, 2]: {o['exc']}", dict(kind="faulted_run", cfg=c, traceback=(o["tb"] or "")[-700:]))
-        else:
-            broken.append(("refutation-replay:" + KNOWN_SLICE, "the witness of C16_slice_sampler_after_drop_refuted no longer aborts on the code "
-                           f"(repaired?): {o['exc'] or 'run completed'} — update known_findings.d/C16.json and the theorem"))
+        hits = [(violation_key(o, k_, m_), m_) for k_, m_ in o["violations"] if k_ != "unrelated-crash"]
+        ctx.oblige("regression-replay:" + KNOWN_SLICE, "correspondence", not hits, str(o["exc"] or "run completed")[:200])
+        ctx.count(1, 1)
+        for k_, m_ in hits[:1]:
+            ctx.violate(k_, f"specified-noise run (seed {c['seed']}, max_fun_evals {c['budget']}) with use_slice_sampler=True and LinAlgError injected "
+                        f"at fit invocations [1, 2] (the former witness of the repaired finding {KNOWN_SLICE}): {m_}",
+                        dict(kind="faulted_run", cfg=c, traceback=(o["tb"] or "")[-700:]))
     bc = next((b for b in bases if b["cfg"].get("target") == "clip"), None)
     if bc is not None:
         c = copy.deepcopy(bc["cfg"])
